@@ -461,7 +461,8 @@ def concrete(fn, params, args):
         else:
             k = crow + (1 if params["keep"] else 0)
             want = before[:k] + [" " * w] * (h - k)
-        ok = scr.display == want and not scr.cursor.hidden
-        return {"ok": ok, "observed": "screen %r hidden %r" % (scr.display, scr.cursor.hidden), "expected": "screen %r cursor visible" % (want,), "call": call}
+        ok = scr.display == want and not scr.cursor.hidden and scr.cursor.x == 0
+        return {"ok": ok, "observed": "screen %r hidden %r cursor column %d" % (scr.display, scr.cursor.hidden, scr.cursor.x),
+                "expected": "screen %r cursor visible, in column 0" % (want,), "call": call}
     finally:
         cw.Cbreak = orig_cbreak
